@@ -27,7 +27,7 @@ def run_check(pid, tier, seed, repo_src=None, update_ledger=False):
         print(f"CHECKER-ERROR property={pid} unsupported construct: {e}")
         if chk is not None:
             chk.error("checker", f"unsupported: {e}")
-            chk.finish()
+            return chk.finish()   # violations found before the unsupported construct are still reported (exit 1)
         return 3
     except Exception as e:  # harness failure: never a VIOLATION
         traceback.print_exc()
